@@ -16,7 +16,7 @@ BUDGET = {"quick": 70, "thorough": 780}
 RULE = (
     "Case = bin table (all layout kinds, object/categorical chrom column, optional extra bin columns) x sparse "
     "matrix pattern x storage mode x input form (frame, shuffled frame, dict, ordered chunk iterable of frames "
-    "or dicts with arbitrary cuts incl. empty chunks, ArrayLoader) x value column set and dtypes x junk column "
+    "or dicts with arbitrary cuts incl. empty chunks, chunks that are internally unsorted - completely or only inside rows - with ensure_sorted=True, ArrayLoader) x value column set and dtypes x junk column "
     "x HDF5 filter options x destination URI spelling x JSON metadata x assembly. Oracle: the same lists held "
     "by the reference model (dense numpy completion). Non-trivial = nnz>=2 and at least one of: >=2 non-empty "
     "chunks, a diagonal and an off-diagonal pixel, a non-fixed layout, an extra value column, a non-default "
@@ -59,7 +59,7 @@ def cases(draw, max_chroms=4, max_bins=6):
     y_dt = draw(st.sampled_from(["float64", "int16"]))
     explicit = draw(st.booleans())
     form = draw(st.sampled_from(["frame", "frame-shuffled", "dict", "chunks-frame", "chunks-dict",
-                                 "chunks-frame", "arrayloader"]))
+                                 "chunks-frame", "arrayloader", "chunks-ensure-sorted"]))
     if form == "arrayloader":
         symmetric, colset, count_dt = True, ["count"], draw(st.sampled_from(["int32", "int64"]))
         rows = draw(gen.pixels(n, True, count=st.integers(1, 1000)))
@@ -82,7 +82,8 @@ def cases(draw, max_chroms=4, max_bins=6):
         "dtypes": dtypes, "eff": {c: eff[c] for c in colset}, "form": form,
         "cuts": draw(gen.cuts(len(rows), 8)) if form.startswith("chunks") else [],
         "chunksize": draw(st.integers(1, n + 1)) if form == "arrayloader" else None,
-        "perm_seed": draw(st.integers(0, 2**16)) if form == "frame-shuffled" else None,
+        "perm_seed": draw(st.integers(0, 2**16)) if form in ("frame-shuffled", "chunks-ensure-sorted") else None,
+        "shuffle": draw(st.sampled_from(["within-rows", "full"])) if form == "chunks-ensure-sorted" else None,
         "junk": draw(st.booleans()),
         "h5opts": draw(gen.H5OPTS),
         "dest": draw(st.sampled_from(["", "", "::/", "::/g", "::g/h", "::/resolutions/100"])),
@@ -150,6 +151,19 @@ def build_input(case):
         df = frame(rows)
         return {k: df[k].to_numpy() for k in df.columns}
     chunks = gen.split_at(rows, case["cuts"])
+    if form == "chunks-ensure-sorted":
+        # every chunk holds a contiguous slice of the sorted stream, but internally out of order:
+        # completely shuffled, or bin1_id non-decreasing with bin2_id permuted inside each row
+        rng = np.random.RandomState(case["perm_seed"])
+        out = []
+        for c in chunks:
+            if case["shuffle"] == "full":
+                c = [c[t] for t in rng.permutation(len(c)).tolist()]
+            else:
+                keys = rng.rand(len(c)).tolist()
+                c = [r for _, r in sorted(zip([(r[0], k) for r, k in zip(c, keys)], c), key=lambda t: t[0])]
+            out.append(frame(c))
+        return iter(out)
     if form == "chunks-frame":
         return iter([frame(c) for c in chunks])
     return iter([{k: v.to_numpy() for k, v in frame(c).items()} for c in chunks])
@@ -176,6 +190,8 @@ def check_roundtrip(case, ctx: Ctx):
     if case["assembly"] is not None:
         kw["assembly"] = case["assembly"]
     try:
+        if case["form"] == "chunks-ensure-sorted":
+            kw["ensure_sorted"] = True
         call("create_cooler", cooler.create_cooler, uri, bins, px, ordered=True,
              symmetric_upper=symmetric, h5opts=_h5opts(case["h5opts"]), **kw)
         clr = call("Cooler()", cooler.Cooler, uri)
